@@ -81,6 +81,9 @@ def jobs(tier, seed):
                             out.append({'spec': {'kind': 'full', 'd': nd, 'cycles': cycles, 'desc': {'layout': name, 'involved': sc, 'exclude_edges': [[a, b]]}}})
         for rounds in [[0], [1], [2], [4], [0, 1], [1, 0], [2, 1], [4, 2], [0, 2]]:
             out.append({'spec': {'kind': 'multi', 'd': 2, 'rounds': rounds, 'desc': {'chain': 3}}})
+    for i, j in enumerate(out):
+        if j['spec']['kind'] in ('full', 'simplified') and j['spec'].get('cycles', 0) in (1, 2) and j['spec'].get('d', 2) == 2 and 'desc' not in j['spec']:
+            j['after_block'] = True
     return out
 
 
@@ -128,3 +131,8 @@ def run(ctx, params):
         ctx.observe('n_unrolled', len(uops))
         ctx.observe('duration_unrolled', u.duration)
         overlap_obligation(ctx, uops, 'C10.no_overlap.unrolled', params['spec'])
+    if params.get('after_block'):
+        # "whatever the configured durations are": the duration block has ended, the ambient (default) durations are in force again; the
+        # same operation objects are read once more (no new listing) and must be overlap-free under *these* durations
+        overlap_obligation(ctx, ops, 'C10.no_overlap.after_duration_block', params['spec'])
+        overlap_obligation(ctx, uops, 'C10.no_overlap.after_duration_block', params['spec'])
